@@ -1279,6 +1279,10 @@ class System:
         visit_idx = 0
 
         while True:
+            if starting_bus >= n:
+                # all buses are islanded; there is no island to search
+                break
+
             if starting_bus in self.Bus.islanded_buses:
                 starting_bus += 1
                 continue
